@@ -273,17 +273,22 @@ def body(ctx, case):
         ocr.ocr_engine = eng
         pl = PageLayout(id="p", page_size=(100, 100))
         regs = [RegionLayout("r%d" % k, np.zeros((4, 2))) for k in range(2)]
+        # line ids: unique on the page, numbered inside every region (the same ids in both regions), or missing
+        scheme = ("page", "region", "none")[(n + len(case["perm"]) + case["C"]) % 3]
         for j, im in enumerate(imgs):
-            regs[j % 2].lines.append(TextLine(id="l%d" % j, crop=im.copy()))
+            tl = TextLine(id={"page": "l%d" % j, "region": "l%d" % (j // 2), "none": None}[scheme], crop=im.copy())
+            tl.verif_pos = j
+            regs[j % 2].lines.append(tl)
         pl.regions = regs
+        ctx.event("page_ocr_line_ids:" + scheme)
         with contextlib.redirect_stdout(io.StringIO()):
             ctx.must("page_ocr_raises", ocr.process_page, None, pl)
         for line in pl.lines_iterator():
-            j = int(line.id[1:])
+            j = line.verif_pos
             ctx.check(line.transcription == ts[j] and list(line.logit_coords) == list(cs[j]) and line.characters == eng.characters
                       and np.array_equal(window_rows(line.logits, line.logit_coords, mode), window_rows(ls[j], cs[j], mode)),
                       "page_ocr_result_on_wrong_line",
-                      lambda: "line %s got %r expected %r; " % (line.id, line.transcription, ts[j]) + desc())
+                      lambda: "line %d (id %r) got %r expected %r; " % (j, line.id, line.transcription, ts[j]) + desc())
     # the logits handed back by the first call are still what they were after all the later calls of the same engine
     for j in range(min(n, len(ls))):
         if snap[j] is not None and ls[j] is not None:
